@@ -16,6 +16,7 @@ import (
 
 	fs "github.com/go-text/typesetting/fontscan"
 
+	"verifharness/internal/corpus"
 	"verifharness/internal/gen"
 	"verifharness/internal/vrun"
 )
@@ -28,11 +29,22 @@ type FaultSpec struct {
 	Synth MIndex `json:"synth,omitempty"`
 	N     int    `json:"gz_len"`      // length of the cache file F
 	M     int    `json:"payload_len"` // length of the uncompressed payload P
+	// Corpus: the index is the scan of the whole font corpus (no temp tree);
+	// its faults are sampled (Sampled cases) instead of enumerated.
+	Corpus  bool  `json:"corpus,omitempty"`
+	Sampled int   `json:"sampled,omitempty"`
+	Seed    int64 `json:"seed,omitempty"`
+}
+
+func corpusDirs() []string {
+	u := corpus.UtilsDir()
+	return []string{filepath.Join(u, "harfbuzz"), filepath.Join(u, "opentype"), filepath.Join(corpus.RepoDir(), "font/testdata"), "/usr/share/fonts/truetype/dejavu"}
 }
 
 // FaultWitness is a self-contained fault case.
 type FaultWitness struct {
 	Part    string    `json:"part"` // "fault"
+	K       int       `json:"context"` // context number: names the tree directory, which is part of every indexed path
 	Spec    FaultSpec `json:"spec"`
 	Variant string    `json:"variant"` // gz-prefix, gz-byte, pl-prefix, pl-byte, crash-*
 	Pos     int       `json:"pos"`
@@ -148,6 +160,9 @@ func genFaultSpec(seed int64, k, shrink int) FaultSpec {
 // original index, its cache file and payload, and the from-scratch scan.
 func buildFaultCtx(k int, sp FaultSpec, base string, build bool) (*faultCtx, error) {
 	c := &faultCtx{k: k, spec: sp, base: base, dirs: []string{filepath.Join(base, "r0")}, seen: map[uint64]bool{}}
+	if sp.Corpus {
+		c.dirs, build = corpusDirs(), false
+	}
 	if build {
 		os.RemoveAll(base)
 		if err := os.MkdirAll(c.dirs[0], 0o755); err != nil {
@@ -184,8 +199,13 @@ func buildFaultCtx(k int, sp FaultSpec, base string, build bool) (*faultCtx, err
 // payloadWellFormed is an independent structural reader of the uncompressed
 // cache payload (format v6): version, entry count, then exactly that many
 // length-prefixed segments, each holding path, modification time and whole
-// footprints, with nothing left over. A faulted payload that still passes it
-// differs from a valid one only in content, which no reader can notice.
+// footprints. Bytes after the last declared entry are allowed: the statement
+// does not fix the grammar, the library's reader ignores them, and a monitor
+// that rejected them would ask for more than "error or well-formed index"
+// (first version of this oracle did, and raised a false alarm on a payload
+// whose last segment size had been shortened to a footprint boundary). A
+// faulted payload that still passes differs from a valid one only in content,
+// which a reader of this grammar cannot notice.
 func payloadWellFormed(p []byte) bool {
 	u16 := func(b []byte) int { return int(b[0])<<8 | int(b[1]) }
 	u32 := func(b []byte) int { return int(b[0])<<24 | int(b[1])<<16 | int(b[2])<<8 | int(b[3]) }
@@ -234,11 +254,16 @@ func payloadWellFormed(p []byte) bool {
 			seg = seg[64+9:]
 		}
 	}
-	return len(p) == 0
+	return true
 }
 
 // number of fault cases of a context
-func (sp FaultSpec) cases() int { return (sp.N + 1) + 4*sp.N + (sp.M + 1) + 4*sp.M }
+func (sp FaultSpec) cases() int {
+	if sp.Sampled > 0 {
+		return sp.Sampled
+	}
+	return (sp.N + 1) + 4*sp.N + (sp.M + 1) + 4*sp.M
+}
 
 func byteVariant(b byte, v int) byte {
 	switch v {
@@ -252,36 +277,58 @@ func byteVariant(b byte, v int) byte {
 	return b + 1
 }
 
-// faultCase materialises case j of the context: the faulted cache file, or
-// nil when the mutation is the identity.
-func (c *faultCtx) faultCase(j int) (variant string, pos, val int, image []byte, strict bool) {
+// faultCase names case j of the context: fault kind, position and byte variant.
+func (c *faultCtx) faultCase(j int) (variant string, pos, val int) {
 	n, m := len(c.F), len(c.P)
+	if c.spec.Sampled > 0 {
+		r := gen.New(c.spec.Seed, "C16/sampled-fault", j)
+		switch j % 10 {
+		case 0, 1, 2:
+			return "gz-prefix", r.Intn(n + 1), 0
+		case 3, 4, 5, 6:
+			return "gz-byte", r.Intn(n), r.Intn(4)
+		case 7:
+			return "pl-prefix", r.Intn(m + 1), 0
+		}
+		return "pl-byte", r.Intn(m), r.Intn(4)
+	}
 	switch {
 	case j <= n:
-		return "gz-prefix", j, 0, c.F[:j:j], true
+		return "gz-prefix", j, 0
 	case j < n+1+4*n:
 		j -= n + 1
-		pos, val = j/4, j%4
+		return "gz-byte", j / 4, j % 4
+	case j < n+1+4*n+m+1:
+		return "pl-prefix", j - (n + 1 + 4*n), 0
+	}
+	j -= n + 1 + 4*n + m + 1
+	return "pl-byte", j / 4, j % 4
+}
+
+// materialize builds the faulted cache file (nil when the byte mutation is
+// the identity) and tells which recovery law applies.
+func (c *faultCtx) materialize(variant string, pos, val int) (image []byte, strict bool) {
+	switch variant {
+	case "gz-prefix":
+		return c.F[:pos:pos], true
+	case "gz-byte":
 		nb := byteVariant(c.F[pos], val)
 		if nb == c.F[pos] {
-			return "gz-byte", pos, val, nil, true
+			return nil, true
 		}
 		img := append([]byte(nil), c.F...)
 		img[pos] = nb
-		return "gz-byte", pos, val, img, true
-	case j < n+1+4*n+m+1:
-		pos = j - (n + 1 + 4*n)
-		return "pl-prefix", pos, 0, gz(c.P[:pos]), !payloadWellFormed(c.P[:pos])
+		return img, true
+	case "pl-prefix":
+		return gz(c.P[:pos]), !payloadWellFormed(c.P[:pos])
 	}
-	j -= n + 1 + 4*n + m + 1
-	pos, val = j/4, j%4
 	nb := byteVariant(c.P[pos], val)
 	if nb == c.P[pos] {
-		return "pl-byte", pos, val, nil, false
+		return nil, false
 	}
 	pl := append([]byte(nil), c.P...)
 	pl[pos] = nb
-	return "pl-byte", pos, val, gz(pl), !payloadWellFormed(pl)
+	return gz(pl), !payloadWellFormed(pl)
 }
 
 // Budgets of the reader on a faulted file of length n: generous multiples of
@@ -310,8 +357,11 @@ type meterCfg struct{ alloc bool }
 func judgeImage(run *vrun.Run, c *faultCtx, variant string, pos, val int, image []byte, strict bool, mc meterCfg) {
 	run.Eval(1)
 	wit := func() FaultWitness {
-		return FaultWitness{Part: "fault", Spec: c.spec, Variant: variant, Pos: pos, Val: val,
-			Image: base64.StdEncoding.EncodeToString(image), Strict: strict}
+		w := FaultWitness{Part: "fault", K: c.k, Spec: c.spec, Variant: variant, Pos: pos, Val: val, Strict: strict}
+		if len(image) <= 64<<10 {
+			w.Image = base64.StdEncoding.EncodeToString(image)
+		}
+		return w
 	}
 	at := fmt.Sprintf("index %d, %s pos=%d val=%d (file of %d bytes)", c.k, variant, pos, val, len(image))
 	var R fs.VerifIndex
@@ -512,7 +562,8 @@ func faultWorker(run *vrun.Run, root string) {
 		if cur.F == nil {
 			return
 		}
-		variant, pos, val, image, strict := cur.faultCase(i - off[k])
+		variant, pos, val := cur.faultCase(i - off[k])
+		image, strict := cur.materialize(variant, pos, val)
 		if image == nil {
 			run.Cover("b:" + variant + ":identity-mutation-skipped")
 			return
